@@ -10,7 +10,8 @@ import (
 )
 
 // S-pure / gtpu: Message.Encode for the header form WritePacket emits.
-//   T gtpu.encode <teid hex> <none | pt,qfi> <payload hex|-> = <bytes hex | panic>
+//
+//	T gtpu.encode <teid hex> <none | pt,qfi> <payload hex|-> = <bytes hex | panic>
 func init() { register("gtpu", runGtpu) }
 
 func gtpuEncode(teid uint32, ext bool, pt, qfi uint8, payload []byte) (res string) {
